@@ -37,6 +37,12 @@ def run(ctx):
             # equal elements under different parents, next to each other
             A = [{'k': rnd.choice(['x', 'y', 1]), 'a': rnd.randint(0, 3), 'arr': [rnd.choice([5, 'e', {'a': 1}]) for _ in range(rnd.randint(0, 3))]} for _ in range(rnd.randint(0, 8))]
             B = [{'k': rnd.choice(['x', 'z', 2]), 'a': rnd.randint(0, 3), 'arr': [rnd.choice([5, 'e', {'a': 1}]) for _ in range(rnd.randint(0, 3))]} for _ in range(rnd.randint(0, 8))]
+        if i % 12 == 5:
+            # long histories: a macro / variable / function that yields nothing (or fails to match) for many records in a row must
+            # behave on the next record as on the first (no counter, cache or guard may build up)
+            cfg = lib.new_cfg(set=['@city=.address.city', '@deep=(get (get . "x") "y")', 'zero=0'], select=['@city=c', '@deep=d', '(+ .a :zero)=a', '(take .arr 1)=t'])
+            A = [rnd.choice([{'a': j}, {'a': j, 'arr': []}, {'name': 'n%d' % j}, j, 'x']) for j in range(rnd.choice([70, 130, 260]))]
+            B = [{'a': 1, 'address': {'city': 'c%d' % j}, 'x': {'y': j}, 'arr': [j, 2]} for j in range(3)]
         perm = list(A + B); rnd.shuffle(perm)
         da, db, dab = gen.stream(A), gen.stream(B), gen.stream(A + B)
         cases += [mkcase('A%d' % i, cfg, da), mkcase('B%d' % i, cfg, db), mkcase('C%d' % i, cfg, dab)]
